@@ -323,3 +323,97 @@ func emitsAfter(fn *ssa.Function, _ *ssa.Select) bool {
 	}
 	return false
 }
+
+// c04BodyConsumed: a handler that serves several HTTP requests per connection from one buffered reader must leave the
+// reader at the start of the next request: between http.ReadRequest and the next iteration the request body is read to
+// its end (io.Copy / ReadAll on req.Body, or a non-deferred Close, which discards the rest). A deferred Close runs when
+// the handler returns, not before the next ReadRequest; whatever part of a body was not read is then parsed as the next
+// request line – the following request is lost or reported as garbage, depending on where the segments were cut.
+func c04BodyConsumed(c *Ctx) {
+	p := c.P
+	const rule = "request-body-consumed"
+	n := 0
+	for _, fn := range p.FuncsIn("services") {
+		if strings.HasSuffix(p.Fset.Position(fn.Pos()).Filename, "_test.go") {
+			continue
+		}
+		for _, call := range Calls(fn) {
+			cv, ok := call.(*ssa.Call)
+			if !ok || !CalleeIs(call, "net/http", "ReadRequest") || !InLoop(cv.Block()) {
+				continue
+			}
+			// one reader for all requests of the connection (a reader made per iteration serves one request by design)
+			rdr, isInstr := cv.Call.Args[0].(ssa.Instruction)
+			if !isInstr || sameLoop(rdr.Block(), cv.Block()) {
+				continue
+			}
+			// proxies hand the request on (Write/WriteProxy consume the body)
+			var req ssa.Value
+			for _, ref := range *cv.Referrers() {
+				if ex, ok := ref.(*ssa.Extract); ok && ex.Index == 0 {
+					req = ex
+				}
+			}
+			if req == nil {
+				continue
+			}
+			isBody := func(v ssa.Value) bool {
+				ld, ok := isLoad(Unwrap(v))
+				if !ok {
+					return false
+				}
+				fa, ok := ld.X.(*ssa.FieldAddr)
+				return ok && fieldNameOf(fa) == "Body" && fa.X == req
+			}
+			consumes := func(in ssa.Instruction) bool {
+				ci, ok := in.(ssa.CallInstruction)
+				if !ok {
+					return false
+				}
+				if _, isDefer := in.(*ssa.Defer); isDefer {
+					return false
+				}
+				cc := ci.Common()
+				if cc.IsInvoke() && cc.Method.Name() == "Close" && isBody(cc.Value) {
+					return true
+				}
+				f := cc.StaticCallee()
+				if f == nil {
+					return false
+				}
+				switch {
+				case FuncIs(f, "io", "Copy") && len(cc.Args) == 2 && isBody(cc.Args[1]),
+					(FuncIs(f, "io/ioutil", "ReadAll") || FuncIs(f, "io", "ReadAll")) && isBody(cc.Args[0]):
+					return true
+				case f.Name() == "Write" || f.Name() == "WriteProxy":
+					// (*http.Request).Write sends and thereby consumes the body
+					return len(cc.Args) > 0 && cc.Args[0] == req
+				}
+				return false
+			}
+			n++
+			reach := InstrReachFrom(fn, cv, nil, consumes)
+			// the same ReadRequest reached again without a consuming call in between
+			again := false
+			for _, pred := range cv.Block().Preds {
+				if len(pred.Instrs) > 0 && reach(pred.Instrs[len(pred.Instrs)-1]) && cv.Block().Dominates(pred) {
+					again = true
+				}
+			}
+			// (the call's own block is re-entered through the loop header)
+			hdr := cv.Block()
+			for _, l := range Loops(fn) {
+				if l.Blocks[hdr] {
+					for _, lt := range l.Latches {
+						if len(lt.Instrs) > 0 && reach(lt.Instrs[len(lt.Instrs)-1]) {
+							// the latch's terminator is reached without a consuming call: is the consuming call perhaps in the latch itself?
+							again = true
+						}
+					}
+				}
+			}
+			c.Check(!again, rule, shortFn(fn)+" request loop", p.InstrPos(cv), "the body is read to its end (or closed) before the next ReadRequest", "the next http.ReadRequest on the connection's shared reader can be reached without the previous request's body having been consumed (io.Copy/ReadAll on req.Body or a non-deferred Close): the unread rest of a body is parsed as the next request line, so a request that follows one with a body is lost or reported as garbage depending on how the stream was segmented")
+		}
+	}
+	c.Floor(rule, 1, "httpService.Handle (also serving https)")
+}
